@@ -147,7 +147,7 @@ func (*FileStorage) Link(oldpath, newpath string) error {
 }
 
 // Copy implementation of Storage interface
-func (*FileStorage) Copy(src, dst string) error {
+func (*FileStorage) Copy(src, dst string) (err error) {
 	srcFile, err := os.Open(src)
 	if err != nil {
 		return err
@@ -168,6 +168,11 @@ func (*FileStorage) Copy(src, dst string) error {
 	defer func() {
 		if err2 := dstFile.Close(); err == nil {
 			err = err2
+		}
+		if err != nil {
+			// Never leave a partial copy behind: the key store keeps old keys under "<key>.old/" and
+			// expects every file there to be a complete key.
+			os.Remove(dst)
 		}
 	}()
 
